@@ -8,6 +8,7 @@ import DecModel.Judge
 import DecModel.HkGen
 import DecGen.Api
 import DecGen.Api2
+import DecModel.BinConvCode
 import DecModel.RoundHelpers
 import DecModel.PackHelpers
 import DecModel.ArithHelpers
@@ -90,6 +91,21 @@ def judgeApi (modeTok : String) (o : Obs) : String :=
     | [.f b] => Dec.Gen.Api2.run2 o.op mode (UInt32.ofNat o.flagsIn) b
     | [.g b] => Dec.Gen.Api2.run2 o.op mode (UInt32.ofNat o.flagsIn) b
     | _ => none
+  -- the hand-written code-shaped model of the same conversions (`DecModel/BinConvCode.lean`; `C07BinConvCode.bin64Code_spec`,
+  -- `bin32Code_spec` prove it equal to the specification for every bit pattern and mode): its tie to the code is this comparison
+  let hand? : Option String := match o.args with
+    | [.f b] | [.g b] =>
+      (match binConvCodeOp o.op (if modeTok == "-" || modeTok == "N" then .rne else o.mode) b, o.out with
+       | some (some (bits, fl)), some (rv, rf) =>
+         if rv == [.d bits] && rf == (o.flagsIn ||| fl) then none
+         else some ("corr binconv-model predicts " ++ showVal (.d bits) ++ " raised " ++ String.ofList (Nat.toDigits 16 fl))
+       | some (some _), none => some "corr binconv-model returns, the compiled routine panicked"
+       | some none, some _ => some "corr binconv-model predicts a panic, the compiled routine returned"
+       | _, _ => none)
+    | _ => none
+  match hand? with
+  | some why => why
+  | none =>
   match float? with
   | some (.error why) =>
     (match o.out with
